@@ -2,8 +2,10 @@
 
 Space: the model of gen/xrefmodels.xm3 (see checks/c13.py) -- the body of A.m<k> is every sequence of <= 2 (thorough: <= 3)
 items of the reference alphabet, whose field part is 8 opcodes (one per width family, each access form twice) on
-{A.f own class, B.g other class same DEX, B.s static, Lext/E;.h external, D.k defined in the SECOND DEX}, plus all 28
-i/s get/put opcodes x 5 fields alone -- each model analysed in BOTH add orders of its two DEX files; and every method of the
+{A.f own class, A.f:String (same name, other type), B.g / B.g:J other class same DEX, B.s static, Lext/E;.h external,
+D.k defined in the SECOND DEX}, plus all 28
+i/s get/put opcodes x 7 fields alone, and field accesses behind a mid-method switch / array-data payload -- analysed in both add
+orders of the two DEX files (see _orders); and every method of the
 shipped DEX files (accesses located with gen/dexread + the gen/dalvik reference sweep).
 Oracle (ref/xref.py): for every access whose (class, name, type) is a field defined in the analysed files:
 Analysis.get_field_analysis(encoded field) lists (method, offset) as read resp. write, the method's
@@ -16,8 +18,8 @@ from checks import xref_common as C
 
 PROPERTY = "C14"
 LEVEL = "exploration"
-RULE = ("every body of <= 2 (thorough <= 3) items over a 129-item reference alphabet + 110 extended single items (all 28 field "
-        "opcodes), each generated program analysed with both add orders of its two DEX files; every field access of the shipped "
+RULE = ("every body of <= 2 (thorough <= 3) items over a 149-item reference alphabet + 150 extended single items (all 28 field "
+        "opcodes), generated programs that touch the second DEX analysed with both add orders; every field access of the shipped "
         "DEX files.  Non-trivial = the body contains at least one field access; distinct by construction (sequence = index) / by "
         "(file, method, offset)")
 ASSUMPTIONS = ["an access is judged only if a field with exactly that (class, name, type) is defined in the analysed files "
@@ -41,7 +43,7 @@ MANIFEST = {
 
 def space(ctx):
     s = C.xm3_space(ctx)
-    s["add_orders"] = ["[A,B] then [D]", "[D] then [A,B]"]
+    s["add_orders"] = ["[A,B] then [D]", "[D] then [A,B] (bodies of length <= 1, bodies touching D.k, all length-3 batches)"]
     s["shipped"] = [n for n, _ in C.shipped_groups(ctx.repo)]
     return s
 
@@ -59,6 +61,15 @@ def shards(ctx):
 
 def _relevant(item):
     return item[0][:4] in ("iget", "iput", "sget", "sput")
+
+
+def _orders(seqs):
+    """Both add orders for every body that touches the second DEX (a D.k item), for every body of length <= 1 and for every
+    batch; D.r -> A.f (fixed body) crosses the DEX boundary in every model, in whichever order it is analysed."""
+    from gen import xrefmodels as X
+    if len(seqs) > 1 or len(seqs[0]) <= 1 or any(X.item_of(c)[1] == X.FIELDS["D.k"] for c in seqs[0]):
+        return (False, True)
+    return (False,)
 
 
 def _outcome(run, k):
@@ -86,7 +97,7 @@ def _shipped(ctx, name, reverse, stats=None):
 def run_shard(ctx, shard):
     acc = Acc()
     if shard[0] != "shipped":
-        C.explore_xm3(ctx, shard, C.judge_c14, acc, (False, True), _relevant, _outcome)
+        C.explore_xm3(ctx, shard, C.judge_c14, acc, _orders, _relevant, _outcome)
         return acc
     stats = collections.Counter()
     res, exp = _shipped(ctx, shard[1], shard[2], stats)
@@ -117,7 +128,8 @@ def finalize(ctx, acc):
     x = acc.extra
     from gen import xrefmodels as X
     missing = [op for op in X.FIELD_OPS_ALL if not x.get("access:" + op)]
-    missing += [k for k in ("where:own-class", "where:other-class", "where:cross-dex", "shipped_accesses_judged") if not x.get(k)]
+    missing += [k for k in ("where:own-class", "where:other-class", "where:cross-dex", "where:same-name-other-type",
+                            "where:after-payload", "shipped_accesses_judged") if not x.get(k)]
     if missing:
         acc.harness_error("vacuity: never exercised: %r" % missing)
     if len(acc.outcomes) < (40 if acc.n > 5000 else 10):
